@@ -181,6 +181,10 @@ func RunOn(f *encrypt.Filter, p payload.Payload, c FCfg) (*Result, error) {
 		r.Findings = append(r.Findings, payload.Finding{Prop: "C10", Sig: "dropped", Msg: "Process dropped an ordinary event without error"})
 		return r, nil
 	}
+	// the forwarded event has the input's shape: the keys of its format table are preserved (C10)
+	if len(r.Out.Formatted) != 1 || r.Out.Formatted["pre"] == nil {
+		r.Findings = append(r.Findings, payload.Finding{Prop: "C10", Sig: "format-table-keys", Msg: fmt.Sprintf("the input event carried one pre-formatted entry (key \"pre\"), the forwarded event's format table has %d entries: container lengths and keys are not preserved", len(r.Out.Formatted))})
+	}
 	if r.AllNone || p.Top == payload.TNil || p.Top == payload.TTypedNil || p.Top == payload.TZero {
 		// forwarded unchanged
 		if r.Out.Type != "t" || !r.Out.CreatedAt.Equal(created) {
